@@ -72,6 +72,7 @@ type Parser struct {
 
 	state        int8
 	chunked      bool
+	chunkExt     bool
 	isClient     bool
 	headerExists bool
 }
@@ -508,6 +509,7 @@ UPGRADER:
 		case stateBodyChunkSizeBefore:
 			if isHex(c) {
 				p.chunkSize = -1
+				p.chunkExt = false
 				start = i
 				p.nextState(stateBodyChunkSize)
 				continue
@@ -517,14 +519,6 @@ UPGRADER:
 			switch c {
 			case '\n':
 				return ErrInvalidChunkSize
-			case ' ':
-				if p.chunkSize < 0 {
-					chunkSize, err := parseAndValidateChunkSize(string(data[start:i]))
-					if err != nil {
-						return err
-					}
-					p.chunkSize = chunkSize
-				}
 			case '\r':
 				if p.chunkSize < 0 {
 					chunkSize, err := parseAndValidateChunkSize(string(data[start:i]))
@@ -536,12 +530,30 @@ UPGRADER:
 				start = i + 1
 				p.nextState(stateBodyChunkSizeLF)
 			default:
-				if !isHex(c) && p.chunkSize < 0 {
+				if p.chunkSize < 0 {
+					// the size token: hex digits, ended by whitespace or the
+					// ';' of a chunk extension
+					if isHex(c) {
+						break
+					}
+					if c != ' ' && c != '\t' && c != ';' {
+						return ErrInvalidChunkSize
+					}
 					chunkSize, err := parseAndValidateChunkSize(string(data[start:i]))
 					if err != nil {
 						return err
 					}
 					p.chunkSize = chunkSize
+					p.chunkExt = c == ';'
+				} else if !p.chunkExt {
+					// after the size only whitespace or a chunk extension
+					switch c {
+					case ' ', '\t':
+					case ';':
+						p.chunkExt = true
+					default:
+						return ErrInvalidChunkSize
+					}
 				}
 			}
 		case stateBodyChunkSizeLF:
